@@ -33,10 +33,11 @@ Theorem C13_leb128 : forall v rest, 0 <= v < 4294967296 ->
 Proof. exact leb128_roundtrip_u32. Qed.
 Print Assumptions C13_leb128.
 
-Theorem C13_leb128_56 : forall v rest, 0 <= v < 72057594037927936 ->
+(* ... and on every uint (since the repair of D19 ReadLeb128 reads back whatever WriteToLeb128 writes) *)
+Theorem C13_leb128_64 : forall v rest, 0 <= v < 18446744073709551616 ->
   read_leb128 (write_leb128 v ++ rest) = Some (v, zlen (write_leb128 v)).
-Proof. exact leb128_roundtrip. Qed.
-Print Assumptions C13_leb128_56.
+Proof. exact leb128_roundtrip_64. Qed.
+Print Assumptions C13_leb128_64.
 
 (* EncodeLEB128 packs exactly those bytes, first byte most significant, into one 64-bit uint - for
    every value that needs at most eight LEB128 bytes (below 2^56) *)
